@@ -521,6 +521,9 @@ func TestVerif_C34(t *testing.T) {
 	budget := 2
 	var rc c34case
 	replay := r.ReplayCase(&rc) && rc.Byz != 0
+	if r.IsReplay() && !replay {
+		return // a recorded case of another unit of this check (decisionquorum)
+	}
 	for bi, byz := range []uint32{4, 1, 2} {
 		if replay && rc.Byz != byz {
 			continue
